@@ -404,6 +404,12 @@ def convert_noshp(value):
     return value
 
 
+def _asobject(value):
+    res = np.empty(np.shape(value), object)
+    res[...] = value
+    return res
+
+
 def args2vals(args):
     return (np.ravel(v)[0] for v in args)
 
@@ -444,16 +450,18 @@ def wrap_ufunc(
             args = tuple(args_parser(*args))
             with np.errstate(divide='ignore', invalid='ignore'):
                 if len(args) >= 32:
-                    shapes = [np.shape(arg) for arg in args]
-                    max_shape = max((s or (1,))[0] for s in shapes)
-                    if max_shape == 1:
-                        res = np.asarray([[
-                            safe_eval(*args2vals(args))
-                        ]], object).view(otype)
-                    else:
-                        res = np.asarray([safe_eval(*v) for v in args2list(
-                            max_shape, shapes, *args
-                        )], object).view(otype)
+                    # Same element-wise rule as `np.vectorize`, which is
+                    # limited in the number of arguments.
+                    try:
+                        shape = np.broadcast_shapes(*map(np.shape, args))
+                    except ValueError:
+                        raise BroadcastError()
+                    it = [
+                        np.broadcast_to(_asobject(arg), shape) for arg in args
+                    ]
+                    res = np.empty(shape, object)
+                    for i in np.ndindex(*shape):
+                        res[i] = safe_eval(*(v[i] for v in it))
                 else:
                     res = np.vectorize(safe_eval, **kw)(*args)
             try:
